@@ -30,7 +30,7 @@ ASSUMPTIONS = [
 REQUIRED_MONITORS = ["pinhole_converges", "slit_length_converges", "slit_width_converges", "slit_both_converges", "pinhole2d_increment"]
 REQUIRED_BUCKETS = {"quick": ["geom:pinhole", "geom:slit(L,0)", "geom:slit(0,W)", "geom:slit(L,W)", "geom:2d",
                               "f:poly", "f:lorentz2", "f:dampedcos", "window_crosses_zero", "acc:low", "acc:med",
-                              "acc:high", "acc:xhigh", "q<W", "sigma:interior-point-widest", "pixel_on_axis", "q_calc:without-data-points"]}
+                              "acc:high", "acc:xhigh", "q<W", "sigma:interior-point-widest", "pixel_on_axis", "q_calc:without-data-points", "pixel_with_one_zero_width"]}
 REQUIRED_BUCKETS["thorough"] = REQUIRED_BUCKETS["quick"]
 
 
@@ -156,6 +156,12 @@ def run_1d(case, rec):
             res = resolution.Slit1D(q, q_length=L if L else None, q_width=W if W else None, q_calc=qc)
         got = res.apply(f(res.q_calc))
         errs.append(np.abs(got - exact))
+        # a batch of curves through one calculator: the first result still holds its values after the next ones
+        held = core.Held()
+        held.keep("first curve smeared by this calculator", got)
+        res.apply(2.0*f(res.q_calc) + 1.0)
+        res.apply(np.ones(len(res.q_calc)))
+        held.verify(rec, {"geometry": geom, "h_multiple": mult})
         if S is None:
             # variation of I over the widest window
             xs = np.linspace(max(lo, 0.0), hi, 400)
@@ -226,6 +232,12 @@ def run_2d(case, rec):
     d.q_data = qmag
     sr = qmag*10**rng.uniform(-2, -0.7, n)
     st = qmag*10**rng.uniform(-2, -0.7, n)
+    if case["k"] % 3 == 1:
+        # pixels with a resolution in one direction only (the other width exactly zero)
+        which = rng.integers(0, 3, n)
+        sr = np.where(which == 1, 0.0, sr)
+        st = np.where(which == 2, 0.0, st)
+        rec.bucket("pixel_with_one_zero_width")
     d.dqx_data, d.dqy_data = sr.copy(), st.copy()
     a, b, c, dd = rng.uniform(-2, 2, 4)
     f = lambda x, y: a*x*x + b*x*y + c*y*y + dd
